@@ -363,6 +363,28 @@ theorem C07_shape_any_valid (n m : Nat) (aff : Mat) (assigned : List (Nat × Nat
   · simp [hu (Or.inr ht')]
   · simp [(hp i j hs' ht').1, hr i j hs' ht']
 
+/-- number of yielded triples: `n + m` minus the number of two-sided matches (each geometry is
+    mentioned once; a two-sided match mentions two) -/
+theorem C07_length (n m : Nat) (aff : Mat) (assigned : List (Nat × Nat)) (out : List Entry)
+    (h : ValidAssignment n m assigned) (hout : selectMatches n m aff assigned = .ok out) :
+    out.length + (out.filter (fun e => e.src.isSome && e.tgt.isSome)).length = n + m := by
+  obtain ⟨hs, ht, hne⟩ := C07_cover n m aff assigned out h hout
+  have h1 : (srcs out).length = n := by rw [hs.length_eq]; simp
+  have h2 : (tgts out).length = m := by rw [ht.length_eq]; simp
+  have key : ∀ l : List Entry, (∀ e ∈ l, e.src ≠ none ∨ e.tgt ≠ none) →
+      l.length + (l.filter (fun e => e.src.isSome && e.tgt.isSome)).length = (srcs l).length + (tgts l).length := by
+    intro l
+    induction l with
+    | nil => intro _; simp [srcs, tgts]
+    | cons e es ih =>
+      intro hl
+      have ih' := ih (fun x hx => hl x (List.mem_cons_of_mem _ hx))
+      have he := hl e (by simp)
+      simp only [srcs, tgts] at ih' ⊢
+      rcases hs' : e.src with _ | i <;> rcases ht' : e.tgt with _ | j <;>
+        simp_all <;> omega
+  rw [key out hne, h1, h2]
+
 /-- the canonical order used when outputs are compared is a permutation: nothing is lost -/
 theorem C07_sortEntries_perm (out : List Entry) : (sortEntries out).Perm out := by
   have hins : ∀ (e : Entry) (l : List Entry), (insertEntry e l).Perm (e :: l) := by
